@@ -729,23 +729,34 @@ def rule_list_helpers(ctx: Ctx, rule: str = "list-helpers") -> None:
             ctx.ok(rule, fi.key, construct)
         else:
             ctx.violation(rule, fi.key, construct, "enumerates %s first" % first, where=fi.where)
-    # lists_equal: set equality
+    # lists_equal: set equality (all paths of the helper, each under its own path condition)
     fi = prog.func("lists.lists_equal")
-    it = Interp(prog, Run([]))
-    a = VS(it.atoms.atom("list1"))
-    b = VS(it.atoms.atom("list2"))
-    v = it.call_function(fi, [a, b], {})
     construct = "lists_equal decides set equality"
-    from .sets import equivalent
+    from .sets import implies
 
-    if not isinstance(v, Cond):
-        ctx.cannot_decide(rule, fi.key, construct, "does not reduce to a condition")
+    def setup(it: Interp):
+        a = VS(it.atoms.atom("list1"), True)
+        b = VS(it.atoms.atom("list2"), True)
+        it._ab = (a, b)
+        return lambda: it.call_function(fi, [a, b], {})
+
+    okc = True
+    why = ""
+    for p in explore(prog, setup):
+        if p.terminal != "return" or not isinstance(p.value, Cond):
+            okc, why = False, "does not reduce to a condition"
+            break
+        A = p.atoms.masks
+        spec = c_not(("E", A["list1"] ^ A["list2"]))
+        if not (implies(list(p.conds) + [p.value.c], spec, p.allowed) and implies(list(p.conds) + [spec], p.value.c, p.allowed)):
+            okc, why = False, "computes a different predicate on path %s" % path_label(p)
+            break
+    if okc:
+        ctx.ok(rule, fi.key, construct)
+    elif why.startswith("does not"):
+        ctx.cannot_decide(rule, fi.key, construct, why)
     else:
-        spec = c_not(("E", a.tt ^ b.tt))
-        if equivalent(v.c, spec, _ONES):
-            ctx.ok(rule, fi.key, construct)
-        else:
-            ctx.violation(rule, fi.key, construct, "computes a different predicate", where=fi.where)
+        ctx.violation(rule, fi.key, construct, why, where=fi.where)
 
 
 def rule_contract_factories(ctx: Ctx, rule: str = "through-constructor") -> None:
